@@ -1,5 +1,6 @@
 import JediModel.Gen.C06
 import JediModel.Lemmas.Refactor
+import JediModel.Lemmas.ExtractIO
 /-! # C06 — Extract / inline keep the program valid and equivalent
 
 Property theorems only.  What is a theorem here: the shape of `inline`'s outcome, the
@@ -265,5 +266,98 @@ theorem source_shape :
     Gen.C06.definitionScopes = ["suite", "file_input"] ∧
     "testlist_star_expr" ∈ Gen.C06.variableExtractableExtra ∧
     "trailer" ∉ Gen.C06.expressionParts := by decide
+
+/-! ## extract_function: which names of a statement selection become parameters
+
+`_find_inputs_and_outputs` (model `ExtractIO.findInputsOutputs`, the loop shape read from the source by the
+translator: `Gen.C06.extractReadsAugTarget`).  `Occ.outer` is the verdict of the real lookup of one occurrence
+(not modelled; supplied per occurrence by the harness with the real `context.goto` / `_is_name_input`).
+What is proved: the bookkeeping of the loop can neither lose nor invent nor duplicate a parameter. -/
+section ExtractInputs
+open JediModel.ExtractIO
+
+/-- the shape of the loop in the source -/
+abbrev ioCfg : Cfg := ⟨Gen.C06.extractReadsAugTarget⟩
+
+/-- Completeness for plain reads, for both accepted shapes of the source: EVERY read whose lookup leaves the
+selection makes its name a parameter - wherever it occurs in the selection and whatever the lookups of earlier
+occurrences of the same name said (first bound then read inside the selection, read with the outer value
+later: still a parameter).  `_partial`: reads through the target of an augmented assignment are not covered
+by the original shape, see `extract_aug_target_read_missed`. -/
+theorem extract_inputs_complete_partial (occs : List Occ) (o : Occ) (hm : o ∈ occs)
+    (hd : o.isDef = false) (ho : o.outer = true) :
+    o.value ∈ (findInputsOutputs ioCfg occs).inputs :=
+  fold_complete ioCfg occs _ o hm (by simp [isRead, hd]) ho
+
+example : (findInputsOutputs ioCfg
+    [⟨"c", false, false, true⟩, ⟨"b", true, false, false⟩, ⟨"r", true, false, false⟩, ⟨"b", false, false, false⟩,
+     ⟨"r", true, false, false⟩, ⟨"b", false, false, true⟩]).inputs = ["c", "b"] := by decide
+
+/-- FULL completeness (every read, the target of an augmented assignment included) for every shape of the loop
+that looks augmented targets up - the shape of proposed_fixes/c06-4 -/
+theorem extract_inputs_complete_of_fix (cfg : Cfg) (hfix : cfg.readsAugTarget = true) (occs : List Occ) (o : Occ)
+    (hm : o ∈ occs) (hr : o.isDef = false ∨ o.augTarget = true) (ho : o.outer = true) :
+    o.value ∈ (findInputsOutputs cfg occs).inputs := by
+  refine fold_complete cfg occs _ o hm ?_ ho
+  rcases hr with h | h <;> simp [isRead, h, hfix]
+
+/-- ... and the source has that shape exactly when the translator says so -/
+theorem extract_inputs_complete (hfix : Gen.C06.extractReadsAugTarget = true) (occs : List Occ) (o : Occ)
+    (hm : o ∈ occs) (hr : o.isDef = false ∨ o.augTarget = true) (ho : o.outer = true) :
+    o.value ∈ (findInputsOutputs ioCfg occs).inputs :=
+  extract_inputs_complete_of_fix ioCfg hfix occs o hm hr ho
+
+example : (findInputsOutputs ⟨true⟩ [⟨"acc", true, true, true⟩, ⟨"a", false, false, true⟩]).inputs = ["acc", "a"] := by
+  decide
+
+/-- counter-witness for the unrestricted statement over the original shape: `acc += a` with `acc` bound in front
+of the selection - `acc` is read, its lookup leaves the selection, and it is no parameter
+(known finding C06-root-extract-function-augmented-assignment-target, replayed on the real code by
+corpus/C06/flow-02) -/
+theorem extract_aug_target_read_missed :
+    (findInputsOutputs ⟨false⟩ [⟨"acc", true, true, true⟩, ⟨"a", false, false, true⟩]).inputs = ["a"] := by decide
+
+/-- Soundness: a parameter is the name of an occurrence that the loop looks up and whose lookup leaves the
+selection - nothing else becomes a parameter -/
+theorem extract_inputs_sound (occs : List Occ) (v : String) (h : v ∈ (findInputsOutputs ioCfg occs).inputs) :
+    ∃ o ∈ occs, o.value = v ∧ o.outer = true ∧ isRead ioCfg o = true := by
+  rcases fold_origin ioCfg occs _ v h with h | h
+  · cases h
+  · exact h
+
+example : ∃ v, v ∈ (findInputsOutputs ioCfg [⟨"a", false, false, true⟩]).inputs := ⟨"a", by decide⟩
+
+/-- no parameter name twice (`def f(a, a)` would not compile) -/
+theorem extract_inputs_nodup (occs : List Occ) : (findInputsOutputs ioCfg occs).inputs.Nodup :=
+  fold_nodup ioCfg occs _ (by simp)
+
+example : (findInputsOutputs ioCfg [⟨"a", false, false, true⟩, ⟨"a", false, false, true⟩]).inputs = ["a"] := by
+  decide
+
+/-- the output candidates are the names of the defining occurrences, in source order (with repetitions:
+`name not in outputs` compares a parso Name with strings) -/
+theorem extract_outputs_spec (occs : List Occ) :
+    (findInputsOutputs ioCfg occs).outputs = (occs.filter (·.isDef)).map (·.value) := by
+  have h := fold_outputs ioCfg occs ⟨[], []⟩
+  simpa [findInputsOutputs] using h
+
+example : (findInputsOutputs ioCfg [⟨"b", true, false, false⟩, ⟨"b", true, false, false⟩]).outputs = ["b", "b"] := by
+  decide
+
+/-- Why the guard of the lookup has to be `name.value not in inputs` and nothing coarser: a loop that remembers
+every name it has looked up (seeded defect C06-2) is incomplete - `if c: b = 10; r = b / else: r = b * 2`:
+the first read of `b` resolves inside the selection, the second one outside, `b` is no parameter -/
+theorem resolve_once_misses_later_outer_read :
+    let occs : List Occ := [⟨"c", false, false, true⟩, ⟨"b", true, false, false⟩, ⟨"r", true, false, false⟩,
+      ⟨"b", false, false, false⟩, ⟨"r", true, false, false⟩, ⟨"b", false, false, true⟩]
+    (findInputsOnce occs).inputs = ["c"] ∧ (findInputsOutputs ioCfg occs).inputs = ["c", "b"] := by decide
+
+/-- the translator found one of the two loop shapes, and the lookup position that goes with it -/
+theorem extract_inputs_source_shape :
+    (Gen.C06.extractReadsAugTarget = false ∧ Gen.C06.extractLookupPosition = "name.start_pos") ∨
+    (Gen.C06.extractReadsAugTarget = true ∧ Gen.C06.extractLookupPosition = "_get_lookup_position(name)") := by
+  decide
+
+end ExtractInputs
 
 end JediModel.Props.C06
